@@ -1137,8 +1137,10 @@ def prop_sequence(outs, codes, slows, captures, cut=0) -> bool:
             return True
 
 
-def prop_native_stale_output() -> bool:
-    """Native reproduction with the real /bin/sh behind the real SubprocessShell (no stubs, real event loop)."""
+def prop_native_stale_output(capture_first: bool = True) -> bool:
+    """Native reproduction with the real /bin/sh behind the real SubprocessShell (no stubs, real event loop):
+    a command that times out (run with capture_output=capture_first), then `echo SECOND` on the shell that
+    get_shell hands out next."""
 
     async def main():
         conn = LocalConnector("c25", "/tmp")
@@ -1147,10 +1149,10 @@ def prop_native_stale_output() -> bool:
         try:
             shell = await conn.get_shell(["sh"], loc)
             try:
-                r1 = await shell.execute(["sleep 1; echo LATE"], capture_output=True, timeout=0.3)
+                r1 = await shell.execute(["sleep 1; echo LATE"], capture_output=capture_first, timeout=0.3)
             except WorkflowExecutionException as e:
                 r1 = "raised: " + str(e)
-            log.append(("first (times out)", r1))
+            log.append(("first (times out, capture_output=" + str(capture_first) + ")", r1))
             shell2 = await conn.get_shell(["sh"], loc)
             log.append(("same shell object reused", shell2 is shell))
             r2 = await shell2.execute(["echo SECOND"], capture_output=True, timeout=10)
@@ -1174,8 +1176,9 @@ def prop_sequence_confirmed(outs, codes, slows, captures, cut=0) -> bool:
         return True
     if _tracing():
         return False
-    if any(slows):
-        return prop_native_stale_output()
+    for k in range(len(slows)):
+        if slows[k]:
+            return prop_native_stale_output(bool(captures[k]))
     return False
 
 
@@ -1286,7 +1289,7 @@ def _specs_A(quick: bool) -> list:
         add(f"env_workdir_{r}_safe", G_ENV, "prop_env_and_workdir(" + repr(r) + ", {alpha}, {args})", targets, f"{rname}: environment value <string> and workdir '/w/' + <string>", alpha_name="SAFE", alpha=SAFE, n=3, parts=[None])
     add("redirects_safe", G_RED, "prop_redirects({alpha}, {args})", T_CREATE, "create_command: stdin / stdout / stderr file name 'f' + <string>", alpha_name="SAFE", alpha=SAFE, n=3, parts=[None])
     # every field at once
-    k = 1 if quick else 2
+    k = 1
     kf = 0 if quick else 1
     names = ["nv", "v0", "v1", "nw", "w0", "w1", "nf", "f0", "f1"]
     pre = []
